@@ -62,6 +62,12 @@ def build_extension(notes: list) -> tuple[Path, dict]:
     (BUILD / "so").mkdir(exist_ok=True)
     tag = "pkg" if str(REPO) == "/repo" else "pkg-" + hashlib.sha256(str(REPO).encode()).hexdigest()[:8]
     pkg = BUILD / tag
+    for old_pkg in BUILD.glob("pkg-*"):            # shadow packages of scratch trees that are gone / older than a day
+        try:
+            if old_pkg != pkg and time.time() - old_pkg.stat().st_mtime > 86400:
+                shutil.rmtree(old_pkg, ignore_errors=True)
+        except OSError:
+            pass
     with open(BUILD / ".lock", "w") as lock:
         fcntl.flock(lock, fcntl.LOCK_EX)
         so = None
@@ -170,6 +176,8 @@ def call(case, backend):
     kw = {} if backend is None else {"backend": backend}
     n = case["n"]
     edges = [tuple(e) for e in case["edges"]]
+    if case.get("container") == "tuple":      # class I: any Sequence of tuples, here an (immutable) tuple
+        edges = tuple(edges)
     fn = case["fn"]
     if fn == "floyd_warshall":
         return f(n, edges, directed=case["directed"], **kw)
@@ -329,7 +337,10 @@ def close(a, b, tol=1e-9):
 
 
 def integral(case):
-    return all(isinstance(e[2], int) for e in case["edges"]) if case["edges"] and len(case["edges"][0]) == 3 else True
+    """weights are ints and every partial sum stays exact in binary64 (|sum| < 2^53): both back-ends must then agree exactly"""
+    if not case["edges"] or len(case["edges"][0]) != 3:
+        return True
+    return all(isinstance(e[2], int) and not isinstance(e[2], bool) for e in case["edges"]) and sum(abs(e[2]) for e in case["edges"]) < 2 ** 53
 
 
 def ref_sssp(n, arcs, s):
@@ -344,39 +355,53 @@ def ref_sssp(n, arcs, s):
     return d, neg
 
 
-def ref_reach(n, edges, s):
+def _adj(n, edges):
+    a = {}
+    for e in edges:
+        a.setdefault(e[0], []).append(e[1])
+    return a
+
+
+def ref_reach(n, edges, s, adj=None):
+    adj = _adj(n, edges) if adj is None else adj
     seen = {s}
     todo = [s]
     while todo:
         x = todo.pop()
-        for e in edges:
-            if e[0] == x and e[1] not in seen:
-                seen.add(e[1])
-                todo.append(e[1])
+        for y in adj.get(x, ()):
+            if y not in seen:
+                seen.add(y)
+                todo.append(y)
     return seen
 
 
 def ref_levels(n, edges, s):
+    adj = _adj(n, edges)
     level = {s: 0}
     frontier = [s]
     while frontier:
         nxt = []
         for x in frontier:
-            for e in edges:
-                if e[0] == x and e[1] not in level:
-                    level[e[1]] = level[x] + 1
-                    nxt.append(e[1])
+            for y in adj.get(x, ()):
+                if y not in level:
+                    level[y] = level[x] + 1
+                    nxt.append(y)
         frontier = nxt
     return level
 
 
 def walk_weights(path, arcs):
     """set of possible weights of the vertex sequence `path` (choice of parallel arcs); empty if not a walk."""
+    par = {}
+    for u, v, c in arcs:
+        par.setdefault((u, v), set()).add(c)
     sums = {0}
     for a, b in zip(path, path[1:]):
-        ws = {c for u, v, c in arcs if u == a and v == b}
+        ws = par.get((a, b))
         if not ws:
             return set()
+        if len(ws) > 8:
+            ws = set(sorted(ws)[:8])
         sums = {x + w for x in sums for w in ws}
         if len(sums) > 4096:
             sums = set(sorted(sums)[:4096])
@@ -384,7 +409,8 @@ def walk_weights(path, arcs):
 
 
 def ref_scc(n, edges):
-    r = [ref_reach(n, edges, s) for s in range(n)]
+    adj = _adj(n, edges)
+    r = [ref_reach(n, edges, s, adj) for s in range(n)]
     return {frozenset(v for v in range(n) if v in r[u] and u in r[v]) for u in range(n)}
 
 
@@ -402,16 +428,17 @@ def ref_msf(n, edges):
     return n - k, total
 
 
-def is_forest_of(n, tree, edges):
+def is_forest_of(n, tree, edges, exact=True):
     pool = {}
     for e in edges:
-        pool[tuple(e)] = pool.get(tuple(e), 0) + 1
+        pool.setdefault((e[0], e[1]), []).append(e[2])
     lab = list(range(n))
     for u, v, c in tree:
-        key = (u, v, c)
-        if pool.get(key, 0) <= 0:
+        ws = pool.get((u, v), [])
+        k = next((i for i, w in enumerate(ws) if (w == c if exact else close(w, c))), None)
+        if k is None:
             return False
-        pool[key] -= 1
+        ws.pop(k)
         if lab[u] == lab[v]:
             return False
         a, b = lab[u], lab[v]
@@ -476,8 +503,11 @@ def judge(case, outs):
         if o["type"] != P["type"]:
             bad(f"solution type {b}={o['type']} python={P['type']}")
 
+    # beyond 2^53 both back-ends compute in binary64: the reference then does the same (mixed int/float comparisons would see
+    # differences that neither implementation can represent); results are compared with the relative tolerance 1e-9
+    fedges = edges if (exact or not edges or len(edges[0]) != 3) else [(u, v, float(c)) for u, v, c in edges]
     if fn == "floyd_warshall":
-        arcs = edges if case["directed"] else edges + [(v, u, c) for u, v, c in edges]
+        arcs = fedges if case["directed"] else fedges + [(v, u, c) for u, v, c in fedges]
         ref = [ref_sssp(n, arcs, s) for s in range(n)]
         neg = any(x[1] for x in ref)
         for b, o in trio:
@@ -500,7 +530,7 @@ def judge(case, outs):
                         break
     elif fn in ("bellman_ford", "dijkstra_edges"):
         s, t = case["source"], case["target"]
-        dist, neg = ref_sssp(n, edges, s)
+        dist, neg = ref_sssp(n, fedges, s)
         for b, o in trio:
             if neg:
                 if (o["status"], o["solution"], o["objective"]) != ("UNBOUNDED", None, "-inf"):
@@ -564,7 +594,7 @@ def judge(case, outs):
                 bad(f"{b}: status {o['status']} expected {want}")
             elif not eqnum(o["objective"], weight):
                 bad(f"{b}: total weight {o['objective']} expected {weight}")
-            elif len(t) != n - comps or not is_forest_of(n, t, edges):
+            elif len(t) != n - comps or not is_forest_of(n, t, edges, exact):
                 bad(f"{b}: {t} is not a spanning forest of the input")
             elif not close(sum(e[2] for e in t), o["objective"]):
                 bad(f"{b}: edges {t} do not sum to the objective {o['objective']}")
@@ -597,6 +627,10 @@ def judge(case, outs):
                     bad(f"{b}: order {sol} violates an edge")
                 elif o["objective"] != n:
                     bad(f"{b}: objective {o['objective']} expected {n}")
+    elif fn == "pagerank_edges" and n == 0:
+        for b, o in trio:
+            if (o["status"], o["solution"]) != ("OPTIMAL", {"dict": []}):
+                bad(f"{b}: empty graph, expected OPTIMAL/{{}}, got {o['status']}/{o['solution']}")
     elif fn == "pagerank_edges":
         tol, mi = case["tol"], case["max_iter"]
         ex, exact_ref = pr_reference(n, edges, case["damping"], mi)
@@ -766,6 +800,647 @@ FIXED = [
 ]
 
 
+
+# ====================================================================== round-2 families (HARDENING.md)
+# M magnitudes, O option corners / sweeps, H rare histories (named shapes), L fresh large int labels, I containers,
+# S medium sizes - all in the ordinary case format, so the same oracle (and, where small, the Coq models) judge them.
+BIGS_EXACT = [2 ** 31, 10 ** 9, 2 ** 44 + 1, 2 ** 40, 2 ** 48 - 1, 3 * 10 ** 12]        # n * w stays below 2^53
+BIGS_ROUNDED = [2 ** 53 - 1, 2 ** 53 + 1, 2 ** 60, 10 ** 18, 10 ** 18 + 1, 2 ** 62 + 2 ** 9]  # binary64 rounds: tolerance applies
+
+
+def gen_magnitude(rng, fn):
+    """weighted functions with weights far from the comfort zone (ints and integer-valued floats; mixing huge and tiny)"""
+    base = gen_case(rng, fn)
+    mode = rng.choice(["scale", "offset", "mix", "rounded", "tiny-float"])
+    es = []
+    for u, v, w in base["edges"]:
+        if mode == "scale":
+            w2 = w * 2 ** 40 if isinstance(w, int) else w
+        elif mode == "offset":
+            w2 = (rng.choice(BIGS_EXACT) + w) if isinstance(w, int) and w >= 0 else w
+        elif mode == "mix":
+            w2 = rng.choice(BIGS_EXACT + [0, 1, 2]) if isinstance(w, int) and w >= 0 else w
+        elif mode == "rounded":
+            w2 = rng.choice(BIGS_ROUNDED + [1, 2 ** 52]) if isinstance(w, int) and w >= 0 else w
+        else:
+            w2 = rng.choice([0.1, 0.2, 0.3, 0.30000000000000004, 0.1 + 0.2, 1e-12, 1e-9, 1.0 + 1e-12, 1.0, 0.7 - 0.1 - 0.6]) if isinstance(w, int) and w >= 0 else w
+            w2 = abs(w2)
+        if isinstance(w2, int) and rng.random() < 0.25:
+            w2 = float(w2)                  # integer-valued float
+        es.append((u, v, w2))
+    base["edges"] = es
+    base["_family"] = "M-" + mode
+    return base
+
+
+def gen_option_corner(rng, fn):
+    """every option at its corners: n = 1 (and 0 where the Python side accepts it), target = source, no edges, only self loops,
+    pagerank max_iter / tol / damping sweeps"""
+    if fn == "pagerank_edges":
+        n = rng.choice([0, 1, 2, 3, 4, 5])
+        edges = gen_edges(rng, n) if n else []
+        c = {"fn": fn, "n": n, "edges": edges, "damping": rng.choice([0.0, 0.5, 0.85, 0.84, 0.86, 0.99, 1.0]),
+             "max_iter": rng.choice([0, 1, 2, 3, 99, 100, 101] + list(range(1, 41))), "tol": rng.choice([0.0, 1e-300, 1e-12, 1e-6, 1e-6, 1e-2, 1.0, 10.0, -1.0])}
+    elif fn in ("strongly_connected_components_edges", "topological_sort_edges"):
+        n = rng.choice([0, 1, 1, 2])
+        c = {"fn": fn, "n": n, "edges": [(rng.randrange(n), rng.randrange(n)) for _ in range(rng.randint(0, 3))] if n else []}
+    else:
+        c = gen_case(rng, fn)
+        shape = rng.choice(["n1", "noedges", "selfloops", "t=s", "t=s-cycle"])
+        three = len(c["edges"][0]) == 3 if c["edges"] else fn in ("floyd_warshall", "bellman_ford", "dijkstra_edges", "kruskal")
+        if shape == "n1":
+            c["n"] = 1
+            c["edges"] = [((0, 0, rng.randint(0, 3)) if three else (0, 0)) for _ in range(rng.randint(0, 2))]
+            if "source" in c:
+                c["source"], c["target"] = 0, rng.choice([None, 0])
+        elif shape == "noedges":
+            c["edges"] = []
+        elif shape == "selfloops":
+            c["edges"] = [((v, v, rng.randint(0, 4)) if three else (v, v)) for v in range(c["n"]) if rng.random() < 0.7]
+        elif "source" in c:
+            c["target"] = c["source"]
+    c["_family"] = "O"
+    return c
+
+
+def sweep_pagerank(rng):
+    """one instance, max_iter = 0..40: the status must flip at the same sweep under both back-ends"""
+    n = rng.randint(2, 6)
+    edges = gen_edges(rng, n)
+    d, tol = rng.choice([0.85, 0.5, 0.9]), rng.choice([1e-6, 1e-4, 1e-3])
+    return [{"fn": "pagerank_edges", "n": n, "edges": edges, "damping": d, "max_iter": k, "tol": tol, "_family": "O-sweep"} for k in range(0, 41)]
+
+
+def shape_edges(rng, n, shape):
+    """unweighted named shapes -> list of (u, v)"""
+    if shape == "chain":
+        return [(i, i + 1) for i in range(n - 1)]
+    if shape == "chain-rev-listed":
+        return [(i, i + 1) for i in range(n - 2, -1, -1)]
+    if shape == "cycle":
+        return [(i, (i + 1) % n) for i in range(n)]
+    if shape == "star-out":
+        return [(0, i) for i in range(1, n)]
+    if shape == "star-in":
+        return [(i, 0) for i in range(1, n)]
+    if shape == "ladder":        # diamonds: many nodes pushed several times by a pop-marking DFS
+        e = []
+        for i in range(0, n - 2, 2):
+            e += [(i, i + 1), (i, i + 2), (i + 1, i + 2)]
+        return e
+    if shape == "fan":           # i -> every j > i, listed far to near; last node hangs off node 0 only and is listed first
+        e = [(0, n - 1)]
+        for i in range(n - 1):
+            e += [(i, j) for j in range(n - 2, i, -1)]
+        return e
+    if shape == "complete":
+        return [(i, j) for i in range(n) for j in range(n) if i != j]
+    if shape == "two-cycles":
+        h = max(1, n // 2)
+        return [(i, (i + 1) % h) for i in range(h)] + [(h + i, h + (i + 1) % (n - h)) for i in range(n - h)] + ([(0, h)] if n > h else [])
+    if shape == "bidirected-tree":
+        e = []
+        for i in range(1, n):
+            p = rng.randrange(i)
+            e += [(p, i), (i, p)]
+        return e
+    if shape == "parallel":
+        return [(0, n - 1)] * rng.randint(3, 9) + [(n - 1, 0)] * rng.randint(0, 3)
+    raise KeyError(shape)
+
+
+SHAPES = ["chain", "chain-rev-listed", "cycle", "star-out", "star-in", "ladder", "fan", "complete", "two-cycles", "bidirected-tree", "parallel"]
+
+
+def gen_history(rng, fn, n=None):
+    """named shapes that force rare internal histories: Bellman-Ford needing all n-1 rounds (chain listed backwards), negative cycle
+    closed by the last edge, Dijkstra with many decrease-keys / stale heap entries, zero-weight cycles, DFS nodes stacked several times,
+    union-find trees of height >= 3 with later finds through them, Kahn with all / one source, dangling-only PageRank"""
+    n = n or rng.choice([2, 3, 4, 5, 6, 8, 9, 12, 16])
+    shape = rng.choice(SHAPES)
+    pairs = shape_edges(rng, n, shape)
+    if rng.random() < 0.3:
+        rng.shuffle(pairs)
+    weighted = fn in ("floyd_warshall", "bellman_ford", "dijkstra_edges", "kruskal")
+    c = {"fn": fn, "n": n, "_family": "H-" + shape}
+    if weighted:
+        wm = rng.choice(["unit", "zero", "dist", "decreasing", "negchain", "negcycle-last", "ties"])
+        if fn == "dijkstra_edges" and wm.startswith("neg"):
+            wm = "decreasing"
+        es = []
+        for k, (u, v) in enumerate(pairs):
+            if wm == "unit":
+                w = 1
+            elif wm == "zero":
+                w = 0
+            elif wm == "dist":
+                w = abs(u - v)
+            elif wm == "decreasing":      # long hops are expensive: every relaxation improves a little (decrease-key chains)
+                w = (abs(u - v)) ** 2 + 1
+            elif wm == "negchain":
+                w = -1 if v == u + 1 else 3
+            elif wm == "negcycle-last":
+                w = 1
+            else:
+                w = rng.randint(1, 2)
+            es.append((u, v, w))
+        if wm == "negcycle-last" and es:
+            u, v, _ = es[-1]
+            es.append((v, u, -(len(es) + 1)))      # closes a negative cycle, listed last
+        if fn == "kruskal" and rng.random() < 0.6:      # balanced merges: union-find trees of height log2(n), then edges between deep nodes
+            es = []
+            step, lvl = 1, 1
+            while step < n:
+                for a in range(0, n - step, 2 * step):
+                    es.append((a + step, a, lvl) if rng.random() < 0.5 else (a, a + step, lvl))
+                step *= 2
+                lvl += 1
+            es += [(rng.randrange(n), rng.randrange(n), lvl + rng.randint(0, 2)) for _ in range(n)]
+            c["_family"] = "H-balanced-merge"
+        c["edges"] = es
+    else:
+        c["edges"] = pairs
+    if fn == "floyd_warshall":
+        c["directed"] = rng.random() < 0.6
+    if fn in ("bellman_ford", "dijkstra_edges", "bfs_edges", "dfs_edges"):
+        c["source"] = rng.choice([0, 0, rng.randrange(n)])
+        c["target"] = rng.choice([None, n - 1, n - 1, rng.randrange(n)])
+    if fn == "kruskal":
+        c["allow_forest"] = rng.random() < 0.5
+    if fn == "pagerank_edges":
+        c.update({"damping": rng.choice([0.85, 0.5]), "max_iter": rng.choice([5, 20, 100]), "tol": 1e-6})
+    return c
+
+
+def gen_labels(rng, fn):
+    """class L for int-indexed APIs: node ids >= 257 (not interned: equal but not identical objects on every occurrence) in a graph of
+    300..420 nodes whose interesting part lives among the high ids"""
+    n = rng.randint(300, 420)
+    k = rng.randint(3, 7)
+    hi = rng.sample(range(257, n), k)
+    small = gen_case(rng, fn)
+    while small["n"] > k:
+        small = gen_case(rng, fn)
+    m = {i: hi[i] for i in range(small["n"])}
+    c = dict(small, n=n, edges=[(m[e[0]], m[e[1]], *e[2:]) for e in small["edges"]], _family="L")
+    for key in ("source", "target"):
+        if c.get(key) is not None:
+            c[key] = m[c[key]]
+    if fn == "kruskal":
+        c["allow_forest"] = True
+    if fn == "pagerank_edges":
+        c["max_iter"] = min(c["max_iter"], 60)
+    return c
+
+
+def gen_sized(rng, fn, big=False):
+    """class S, medium: sizes around 17 / 33 / 65 / 129 / 257 (union-find trees, heaps and queues of real depth), random sparse graphs
+    and named shapes; 801 / 1025 / 2049 for the linear-time functions in the thorough tier"""
+    sizes = [17, 33, 65] if fn == "floyd_warshall" else [17, 33, 65, 129, 257]
+    if big and fn not in ("floyd_warshall", "strongly_connected_components_edges", "pagerank_edges"):
+        sizes += [801, 1025, 2049]
+    n = rng.choice(sizes) + rng.choice([-1, 0, 1])
+    if rng.random() < 0.5:
+        shape = rng.choice([s_ for s_ in SHAPES if s_ not in ("complete", "fan") or n <= 66])
+        if fn == "strongly_connected_components_edges" and n > 300:
+            shape = "two-cycles" if n < 600 else "star-out"
+        c = gen_history(rng, fn, n)
+        c["_family"] = "S-" + c["_family"]
+        return c
+    c = {"fn": fn, "n": n, "_family": "S-random"}
+    m = rng.randint(n // 2, 3 * n)
+    weighted = fn in ("floyd_warshall", "bellman_ford", "dijkstra_edges", "kruskal")
+    neg = fn in ("floyd_warshall", "bellman_ford") and rng.random() < 0.3
+    es = []
+    for _ in range(m):
+        u, v = rng.randrange(n), rng.randrange(n)
+        if weighted:
+            es.append((u, v, rng.randint(-1 if neg else 0, 20)))
+        else:
+            es.append((u, v))
+    if fn == "topological_sort_edges" and rng.random() < 0.7:
+        perm = list(range(n))
+        rng.shuffle(perm)
+        es = [(perm[min(a, b)], perm[max(a, b)]) for a, b in es if a != b]
+    if fn == "kruskal" and rng.random() < 0.6:
+        es += [(i, rng.randrange(i), rng.randint(0, 20)) for i in range(1, n)]
+        rng.shuffle(es)
+    c["edges"] = es
+    if fn == "floyd_warshall":
+        c["directed"] = rng.random() < 0.5
+    if fn in ("bellman_ford", "dijkstra_edges", "bfs_edges", "dfs_edges"):
+        c["source"] = rng.randrange(n)
+        c["target"] = rng.choice([None, rng.randrange(n)])
+    if fn == "kruskal":
+        c["allow_forest"] = rng.random() < 0.5
+    if fn == "pagerank_edges":
+        c.update({"damping": 0.85, "max_iter": rng.choice([10, 50, 100]), "tol": 1e-6})
+    return c
+
+
+def gen_container(rng, fn):
+    """class I: the edge list as a tuple (any Sequence of tuples is accepted by both back-ends; it also cannot be modified in place)"""
+    c = gen_case(rng, fn)
+    c["container"] = "tuple"
+    c["_family"] = "I-tuple"
+    return c
+
+
+def hardening_cases(rng, quick_n, big=False):
+    out = []
+    weighted = ["floyd_warshall", "bellman_ford", "dijkstra_edges", "kruskal"]
+    for fn in FNS:
+        k = quick_n
+        if fn in weighted:
+            out += [gen_magnitude(rng, fn) for _ in range(2 * k)]
+        out += [gen_option_corner(rng, fn) for _ in range(k)]
+        out += [gen_history(rng, fn) for _ in range(2 * k)]
+        out += [gen_labels(rng, fn) for _ in range(max(2, k // 3))] if fn != "floyd_warshall" else []
+        out += [gen_sized(rng, fn, big) for _ in range(max(3, k // 2))]
+        out += [gen_container(rng, fn) for _ in range(max(2, k // 3))]
+    for _ in range(2 if not big else 8):
+        out += sweep_pagerank(rng)
+    return out
+
+
+
+# ====================================================================== class S, large: answers known by construction
+def _trio(fn, *args, **kw):
+    f = _fn(fn)
+    out = {}
+    for b in ("python", "rust", "default"):
+        try:
+            out[b] = f(*args, **kw) if b == "default" else f(*args, backend=b, **kw)
+        except BaseException as e:  # noqa: BLE001
+            out[b] = e
+    return out
+
+
+def _expect(tag, trio, check):
+    """check(result) -> None | str, applied to every back-end; exceptions are failures"""
+    probs = []
+    for b, r in trio.items():
+        if isinstance(r, BaseException):
+            probs.append(f"{tag}: backend={b} raised {type(r).__name__}: {str(r)[:120]}")
+            continue
+        m = check(r)
+        if m:
+            probs.append(f"{tag}: backend={b}: {m}")
+    return probs
+
+
+def _is_path(p, s, t, eset):
+    return isinstance(p, list) and p and p[0] == s and p[-1] == t and all((a, b) in eset for a, b in zip(p, p[1:]))
+
+
+def big_dense_pendant(k, order, which, wmode="linear"):
+    """complete DAG on 0..k-1 (i -> j for i < j) with > 10^6 arcs when k >= 1416, listed per node `order`; node k hangs off node 0 only
+    and is listed FIRST, node k+1 hangs off node 0 only and is listed LAST.  which in bfs_edges / dfs_edges / dijkstra_edges."""
+    import random as _r
+
+    n = k + 2
+    pairs = [(0, k)]
+    rr = _r.Random(k)
+    for i in range(k):
+        js = list(range(i + 1, k))
+        if order == "far-to-near":
+            js.reverse()
+        elif order == "shuffled":
+            rr.shuffle(js)
+        pairs.extend((i, j) for j in js)
+    pairs.append((0, k + 1))
+    probs = []
+    tag = f"{which} on dense_pendant(k={k}, order={order}; n={n}, |E|={len(pairs)})"
+    if which == "dijkstra_edges":
+        # linear: the first relaxation of every node is final; quadratic: every arc (i, j) improves j once more, so the heap receives about
+        # one entry per arc (> 10^6 lazy deletions) while the distances are still dist[j] = j (unit steps along the chain)
+        edges = [(u, v, ((v - u) if wmode == "linear" else (v - u) ** 2) if v < k else 1) for u, v in pairs]
+        tag += f", weights {wmode}"
+        want = {j: (j if j < k else 1) for j in range(n)}
+        want[0] = 0
+        probs += _expect(tag + ", no target", _trio(which, n, edges, 0),
+                         lambda r: None if (r.status.name == "OPTIMAL" and r.solution == want) else f"{r.status.name}, {len(r.solution or [])} distances; expected dist[j]=j on the core and 1 on the pendants")
+        wset = {(u, v): w for u, v, w in edges}
+        for t in (k, k + 1, k - 1):
+            def chk(r, t=t):
+                if r.status.name != "OPTIMAL" or r.objective != want[t]:
+                    return f"{r.status.name} objective {r.objective}, expected OPTIMAL {want[t]}"
+                p = r.solution
+                if not _is_path(p, 0, t, wset) or sum(wset[a, b] for a, b in zip(p, p[1:])) != want[t]:
+                    return f"path {p[:6] if p else p}... is not a walk 0->{t} of weight {want[t]}"
+            probs += _expect(tag + f", target={t}", _trio(which, n, edges, 0, target=t), chk)
+        return probs
+    eset = set(pairs)
+    found = "OPTIMAL" if which == "bfs_edges" else "FEASIBLE"
+    probs += _expect(tag + ", no target", _trio(which, n, pairs, 0),
+                     lambda r: None if (r.status.name == "OPTIMAL" and r.solution == list(range(n)) and r.objective == 0) else f"{r.status.name}, {len(r.solution or [])} nodes; expected OPTIMAL and all {n} nodes")
+    for t in (k, k + 1, k - 1):
+        def chk(r, t=t):
+            if r.status.name != found:
+                return f"status {r.status.name} solution {str(r.solution)[:40]}, expected {found} (the target is a successor of the source)"
+            if not _is_path(r.solution, 0, t, eset) or r.objective != len(r.solution) - 1:
+                return f"{str(r.solution)[:60]} / objective {r.objective} is not a path 0->{t} with its length"
+            if which == "bfs_edges" and r.objective != 1:
+                return f"path of {r.objective} edges, the shortest has 1"
+        probs += _expect(tag + f", target={t}", _trio(which, n, pairs, 0, target=t), chk)
+    return probs
+
+
+def big_ring(n, which):
+    """directed cycle 0 -> 1 -> ... -> n-1 -> 0 and the chain without the closing arc (listed forwards)"""
+    chain = [(i, i + 1) for i in range(n - 1)]
+    ring = chain + [(n - 1, 0)]
+    tag = f"{which} on ring/chain(n={n})"
+    if which in ("bfs_edges", "dfs_edges"):
+        found = "OPTIMAL" if which == "bfs_edges" else "FEASIBLE"
+        p = _expect(tag + " ring, no target", _trio(which, n, ring, 5 % n),
+                    lambda r: None if (r.status.name == "OPTIMAL" and r.solution == list(range(n))) else f"{r.status.name}, {len(r.solution or [])} nodes")
+        p += _expect(tag + " chain, target=last", _trio(which, n, chain, 0, target=n - 1),
+                     lambda r: None if (r.status.name == found and r.solution == list(range(n)) and r.objective == n - 1) else f"{r.status.name} objective {r.objective}")
+        p += _expect(tag + " chain, target behind the source", _trio(which, n, chain, 1, target=0),
+                     lambda r: None if (r.status.name == "INFEASIBLE" and r.solution is None) else f"{r.status.name}")
+        return p
+    if which in ("dijkstra_edges", "bellman_ford"):
+        w = [(u, v, 2) for u, v in ring]
+        args = (n, w, 0) if which == "dijkstra_edges" else (0, w, n)
+        p = _expect(tag + " ring, no target", _trio(which, *args),
+                    lambda r: None if (r.status.name == "OPTIMAL" and r.solution == {i: 2 * i for i in range(n)}) else f"{r.status.name}; dist[last]={None if r.solution is None else r.solution.get(n - 1)} expected {2 * (n - 1)}")
+        p += _expect(tag + " ring, target=last", _trio(which, *args, target=n - 1),
+                     lambda r: None if (r.status.name == "OPTIMAL" and r.objective == 2 * (n - 1) and r.solution == list(range(n))) else f"{r.status.name} objective {r.objective}")
+        return p
+    if which == "topological_sort_edges":
+        p = _expect(tag + " chain", _trio(which, n, chain[::-1]),
+                    lambda r: None if (r.status.name == "OPTIMAL" and r.solution == list(range(n)) and r.objective == n) else f"{r.status.name} objective {r.objective}")
+        p += _expect(tag + " ring", _trio(which, n, ring), lambda r: None if (r.status.name == "INFEASIBLE" and r.solution is None) else f"{r.status.name}")
+        return p
+    if which == "kruskal":
+        w = [(u, v, 1 + (u % 3)) for u, v in ring]
+        tot = sum(sorted(x[2] for x in w)[:n - 1])
+        return _expect(tag + " ring", _trio(which, n, w),
+                       lambda r: None if (r.status.name == "OPTIMAL" and r.objective == tot and len(r.solution) == n - 1) else f"{r.status.name} weight {r.objective} expected {tot}")
+    if which == "pagerank_edges":
+        def chk(r):
+            if r.status.name != "OPTIMAL" or len(r.solution) != n or max(abs(x - 1 / n) for x in r.solution.values()) > 1e-12:
+                return f"{r.status.name}; scores are not uniform 1/{n}"
+        return _expect(tag + " ring", _trio(which, n, ring), chk)
+    if which == "strongly_connected_components_edges":
+        # many 3-cycles chained by one-way arcs (no deep recursion): components are the triples, sinks first
+        tri = []
+        for c in range(n // 3):
+            a = 3 * c
+            tri += [(a, a + 1), (a + 1, a + 2), (a + 2, a)]
+            if c:
+                tri.append((a - 1, a))
+        m = 3 * (n // 3)
+        want = {frozenset((3 * c, 3 * c + 1, 3 * c + 2)) for c in range(n // 3)}
+
+        def chk(r):
+            if r.status.name != "OPTIMAL" or {frozenset(x) for x in r.solution} != want or r.objective != len(want):
+                return f"{r.status.name}, {len(r.solution)} components, expected the {len(want)} triples"
+            pos = {v: i for i, x in enumerate(r.solution) for v in x}
+            if any(pos[u] < pos[v] for u, v in tri):
+                return "components are not in reverse topological order"
+        # depth of the recursion: each triple adds 3 frames -> keep the chain of triples short and repeat it side by side
+        if m > 600:
+            tri = [(u, v) for u, v in tri if not (u % 300 == 299 and v == u + 1)]      # cut the chain every 100 triples
+        return _expect(f"{which} on chained 3-cycles(n={m})", _trio(which, m, tri), chk)
+    return []
+
+
+def fast_msf_weight(n, edges):
+    """independent union-find (path halving, no ranks) for sizes where the naive relabelling oracle is too slow"""
+    par = list(range(n))
+
+    def find(x):
+        while par[x] != x:
+            par[x] = par[par[x]]
+            x = par[x]
+        return x
+    tot, k = 0, 0
+    for u, v, w in sorted(edges, key=lambda e: e[2]):
+        a, b = find(u), find(v)
+        if a != b:
+            par[a] = b
+            tot += w
+            k += 1
+    return n - k, tot
+
+
+def big_kruskal_balanced(n, seed):
+    """unions through roots in a balanced order (union-find trees of height log2 n), then many edges between deep nodes"""
+    import random as _r
+
+    rr = _r.Random(seed)
+    es, step, lvl = [], 1, 1
+    while step < n:
+        for a in range(0, n - step, 2 * step):
+            es.append((a + step, a, lvl) if rr.random() < 0.5 else (a, a + step, lvl))
+        step *= 2
+        lvl += 1
+    es += [(rr.randrange(n), rr.randrange(n), rr.randint(1, lvl + 2)) for _ in range(3 * n)]
+    rr.shuffle(es)
+    comps, tot = fast_msf_weight(n, es)
+    return _expect(f"kruskal on balanced_merges(n={n}, seed={seed}, |E|={len(es)})", _trio("kruskal", n, es),
+                   lambda r: None if (r.status.name == "OPTIMAL" and comps == 1 and r.objective == tot and len(r.solution) == n - 1) else f"{r.status.name} weight {r.objective} expected OPTIMAL {tot}")
+
+
+def big_fw_line(n):
+    es = [(i, i + 1, 1) for i in range(n - 1)]
+    want = [[abs(i - j) for j in range(n)] for i in range(n)]
+    p = _expect(f"floyd_warshall on line(n={n}), undirected", _trio("floyd_warshall", n, es, directed=False),
+                lambda r: None if (r.status.name == "OPTIMAL" and r.solution == want) else f"{r.status.name}; dist[0][{n - 1}]={None if r.solution is None else r.solution[0][n - 1]}")
+    p += _expect(f"floyd_warshall on line(n={n}), directed", _trio("floyd_warshall", n, es, directed=True),
+                 lambda r: None if (r.status.name == "OPTIMAL" and all(r.solution[i][j] == (j - i if j >= i else INF) for i in range(n) for j in range(n))) else f"{r.status.name}")
+    return p
+
+
+def big_parallel(m):
+    """m parallel arcs 0 -> 1 with weights m, m-1, .., 1 (the minimum is listed last) and m arcs back with weight 7"""
+    es = [(0, 1, m - i) for i in range(m)] + [(1, 0, 7)] * m
+    p = _expect(f"floyd_warshall on parallel(m={m})", _trio("floyd_warshall", 2, es),
+                lambda r: None if (r.status.name == "OPTIMAL" and r.solution == [[0, 1], [7, 0]]) else f"{r.status.name} {r.solution}")
+    p += _expect(f"floyd_warshall undirected on parallel(m={m})", _trio("floyd_warshall", 2, es, directed=False),
+                 lambda r: None if (r.status.name == "OPTIMAL" and r.solution == [[0, 1], [1, 0]]) else f"{r.status.name} {r.solution}")
+    p += _expect(f"bellman_ford on parallel(m={m})", _trio("bellman_ford", 0, es, 2, target=1),
+                 lambda r: None if (r.status.name == "OPTIMAL" and r.objective == 1 and r.solution == [0, 1]) else f"{r.status.name} {r.objective}")
+    p += _expect(f"dijkstra_edges on parallel(m={m})", _trio("dijkstra_edges", 2, es, 0, target=1),
+                 lambda r: None if (r.status.name == "OPTIMAL" and r.objective == 1 and r.solution == [0, 1]) else f"{r.status.name} {r.objective}")
+    p += _expect(f"kruskal on parallel(m={m})", _trio("kruskal", 2, es),
+                 lambda r: None if (r.status.name == "OPTIMAL" and r.objective == 1 and len(r.solution) == 1) else f"{r.status.name} {r.objective}")
+    return p
+
+
+BIG = {"dense_pendant": big_dense_pendant, "ring": big_ring, "kruskal_balanced": big_kruskal_balanced, "fw_line": big_fw_line, "parallel": big_parallel}
+
+
+def big_plan(rng, thorough=False):
+    """(name, args) list; sizes cross 257 / 1025 / 2049 / 65537 / 10^6 elements; each item stays around a second or two"""
+    plan = []
+    orders = ["far-to-near", "near-to-far", "shuffled"]
+    for which in ("bfs_edges", "dfs_edges", "dijkstra_edges"):
+        os_ = orders if (thorough or which != "dijkstra_edges") else [rng.choice(orders)]
+        for o in os_:
+            plan.append(("dense_pendant", [rng.randint(1420, 1500), o, which] + (["quadratic" if o != "far-to-near" and rng.random() < 0.7 else "linear"] if which == "dijkstra_edges" else [])))
+    if not thorough:
+        plan.append(("dense_pendant", [rng.randint(1420, 1500), "near-to-far", "dijkstra_edges", "quadratic"]))
+    for which in ("bfs_edges", "dfs_edges", "dijkstra_edges", "bellman_ford", "topological_sort_edges", "kruskal", "pagerank_edges",
+                  "strongly_connected_components_edges"):
+        plan.append(("ring", [rng.choice([65537, 100001] if which not in ("bellman_ford",) else [65537]), which]))
+        plan.append(("ring", [rng.choice([257, 1025, 2049]), which]))
+    plan.append(("kruskal_balanced", [rng.choice([1024, 4096, 65536 if thorough else 8192]), rng.randrange(1000)]))
+    plan.append(("kruskal_balanced", [rng.choice([16, 32, 64]), rng.randrange(1000)]))
+    plan.append(("fw_line", [rng.choice([65, 97])]))
+    plan.append(("parallel", [rng.choice([2049, 66000])]))
+    return plan
+
+
+def run_big(name, args):
+    return BIG[name](*args)
+
+
+# ====================================================================== class A: aliasing and call sequences
+W_FNS = ["floyd_warshall", "bellman_ford", "dijkstra_edges", "kruskal"]
+P_FNS = ["bfs_edges", "dfs_edges", "pagerank_edges", "strongly_connected_components_edges", "topological_sort_edges"]
+
+
+def gen_sequence(rng):
+    """One shared edge-list object passed to consecutive calls of several functions with different options and back-ends, in random order.
+    After every call the caller's list must be unchanged and the answer must equal the answer of the same call on a fresh copy."""
+    n = rng.choice([2, 2, 3, 4, 5, 6])
+    weighted = rng.random() < 0.55
+    edges = gen_wedges(rng, n, negative=False) if weighted else gen_edges(rng, n)
+    if not edges:
+        edges = [(0, n - 1, 5)] if weighted else [(0, n - 1)]
+    steps = []
+    for _ in range(rng.randint(3, 7)):
+        fn = rng.choice(W_FNS if weighted else P_FNS)
+        st = {"fn": fn, "backend": rng.choice(["python", "rust", "default"])}
+        if fn == "floyd_warshall":
+            st["directed"] = rng.random() < 0.5
+        if fn in ("bellman_ford", "dijkstra_edges", "bfs_edges", "dfs_edges"):
+            st["source"] = rng.randrange(n)
+            st["target"] = rng.choice([None, rng.randrange(n)])
+        if fn == "kruskal":
+            st["allow_forest"] = rng.random() < 0.5
+        if fn == "pagerank_edges":
+            st.update({"damping": 0.85, "max_iter": rng.choice([3, 20]), "tol": 1e-6})
+        steps.append(st)
+    if rng.random() < 0.35:                       # the same call twice, and the same call under another back-end right after
+        st = dict(rng.choice(steps))
+        steps += [st, dict(st, backend=rng.choice(["python", "rust", "default"]))]
+    return {"kind": "seq", "n": n, "edges": edges, "container": rng.choice(["list", "list", "list", "tuple"]), "steps": steps}
+
+
+def _obs_result(res):
+    return {"status": res.status.name, "solution": canon(res.solution), "objective": canon(res.objective), "type": type(res.solution).__name__}
+
+
+def run_sequence(seq):
+    """-> list of per-step dicts {'shared': obs | error, 'fresh': obs | error, 'modified': None | description}"""
+    pristine = [tuple(e) for e in seq["edges"]]
+    shared = [tuple(e) for e in pristine]
+    ids = [id(x) for x in shared]
+    if seq.get("container") == "tuple":
+        shared = tuple(shared)
+    out = []
+    for st in seq["steps"]:
+        case = dict(st, n=seq["n"], edges=pristine)
+        backend = None if st["backend"] == "default" else st["backend"]
+        rec = {}
+        for which in ("shared", "fresh"):
+            f = _fn(st["fn"])
+            kw = {} if backend is None else {"backend": backend}
+            e = shared if which == "shared" else (tuple(tuple(x) for x in pristine) if seq.get("container") == "tuple" else [tuple(x) for x in pristine])
+            try:
+                if st["fn"] == "floyd_warshall":
+                    r = guarded(f, seq["n"], e, directed=st["directed"], timeout=5, **kw)
+                elif st["fn"] == "bellman_ford":
+                    r = guarded(f, st["source"], e, seq["n"], target=st["target"], timeout=5, **kw)
+                elif st["fn"] in ("dijkstra_edges", "bfs_edges", "dfs_edges"):
+                    r = guarded(f, seq["n"], e, st["source"], target=st["target"], timeout=5, **kw)
+                elif st["fn"] == "kruskal":
+                    r = guarded(f, seq["n"], e, allow_forest=st["allow_forest"], timeout=5, **kw)
+                elif st["fn"] == "pagerank_edges":
+                    r = guarded(f, seq["n"], e, damping=st["damping"], max_iter=st["max_iter"], tol=st["tol"], timeout=5, **kw)
+                else:
+                    r = guarded(f, seq["n"], e, timeout=5, **kw)
+            except BaseException as ex:  # noqa: BLE001
+                r = ("exc", type(ex).__name__, str(ex)[:200])
+            rec[which] = _obs_result(r[1]) if r[0] == "ok" else list(r)
+        now = list(shared)
+        rec["modified"] = None
+        if len(now) != len(pristine) or any(a != b for a, b in zip(now, pristine)):
+            rec["modified"] = f"{len(pristine)} edges before the call, afterwards {now[:12]}{'...' if len(now) > 12 else ''}"
+        elif [id(x) for x in now] != ids:
+            rec["modified"] = "elements of the caller's list were replaced by other objects"
+        out.append(rec)
+        del case
+    return out
+
+
+def step_str(seq, st, var="e"):
+    c = dict(st, n=seq["n"], edges=[])
+    b = None if st["backend"] == "default" else st["backend"]
+    return call_str(c, b).replace("[]", var, 1)
+
+
+def judge_sequence(seq, recs):
+    """-> None | message naming the first offending call of the sequence"""
+    prefix = f"e = {tuple(map(tuple, seq['edges'])) if seq.get('container') == 'tuple' else [tuple(x) for x in seq['edges']]}; "
+    for k, (st, rec) in enumerate(zip(seq["steps"], recs)):
+        hist = "; ".join(step_str(seq, s_) for s_ in seq["steps"][:k + 1])
+        if rec["modified"]:
+            return prefix + hist + f"  -> the caller's edge list was modified by call #{k + 1}: {rec['modified']}"
+        if rec["shared"] != rec["fresh"]:
+            return prefix + hist + f"  -> call #{k + 1} on the shared list returns {rec['shared']}, the same call on a fresh copy returns {rec['fresh']} (answer depends on earlier calls)"
+        if isinstance(rec["shared"], list):
+            return prefix + hist + f"  -> call #{k + 1} failed: {rec['shared']}"
+    return None
+
+
+def _batch_seq(seqs):
+    return [run_sequence(q) for q in seqs]
+
+
+def run_sequences(seqs, chunk=40):
+    out = []
+    for k in range(0, len(seqs), chunk):
+        part = seqs[k:k + chunk]
+        r = _in_child(_batch_seq, part, timeout=20.0 + 1.0 * len(part))
+        if r[0] == "ok" and len(r[1]) == len(part):
+            out += r[1]
+        else:
+            for q in part:
+                r1 = _in_child(run_sequence, q, timeout=15.0)
+                out.append(r1[1] if r1[0] == "ok" else [{"shared": ["exc", "Crash", str(r1)], "fresh": None, "modified": None}])
+    return out
+
+
+def shrink_sequence(seq):
+    """drop steps, then edges, while the sequence still fails"""
+    def bad(q):
+        r = _in_child(run_sequence, q, timeout=15.0)
+        return r[0] == "ok" and judge_sequence(q, r[1]) is not None
+
+    cur = dict(seq)
+    changed = True
+    while changed:
+        changed = False
+        for i in range(len(cur["steps"])):
+            q = dict(cur, steps=cur["steps"][:i] + cur["steps"][i + 1:])
+            if q["steps"] and bad(q):
+                cur, changed = q, True
+                break
+        if changed:
+            continue
+        for i in range(len(cur["edges"])):
+            q = dict(cur, edges=cur["edges"][:i] + cur["edges"][i + 1:])
+            if q["edges"] and bad(q):
+                cur, changed = q, True
+                break
+    return cur
+
+
 # ====================================================================== Coq terms
 def cedge3(e):
     return f"({cnat(e[0])}, {cnat(e[1])}, {cz(e[2])})"
@@ -913,6 +1588,8 @@ def coq_spec(fn):
 def coq_case(case, P, R):
     """Coq literal of one case, or None when the Z / small-Q models do not apply."""
     fn, n = case["fn"], case["n"]
+    if n > 16 or n == 0 or len(case["edges"]) > 60 or case.get("container"):
+        return None
     if fn in ("floyd_warshall", "bellman_ford", "dijkstra_edges", "kruskal"):
         if not integral(case) or not is_int_obs(P) or not is_int_obs(R):
             return None
@@ -1027,7 +1704,10 @@ def _corpus():
 
 
 def run(ctx: Ctx):
-    ctx.rule = ("per function: corpus + fixed witnesses, then random multigraphs with n in 1..7 (..14 thorough), duplicate and anti-parallel arcs with different "
+    ctx.rule = ("round-2 families added: weights at 2^31..10^18 and near-tolerance floats, option corners and max_iter sweeps 0..40, named shapes forcing rare "
+                "histories, node ids >= 257, tuple containers, sizes 17..257 (..2049 thorough), by-construction instances up to 10^5 nodes / 10^6 arcs, and "
+                "call sequences on one shared edge list (input not modified, answers independent of earlier calls); "
+                "per function: corpus + fixed witnesses, then random multigraphs with n in 1..7 (..14 thorough), duplicate and anti-parallel arcs with different "
                 "weights, self loops, isolated nodes, directed/undirected, with/without target, negative weights and cycles where supported, int and float weights; "
                 "each case is run under backend='python', 'rust' (extension rebuilt from the working tree) and the default; "
                 "non-trivial = at least 2 edges and (for target queries) a reachable target or (otherwise) a result with more than one finite entry; "
@@ -1053,6 +1733,11 @@ def run(ctx: Ctx):
     cases = _corpus() + [dict(c) for c in FIXED]
     for fn in FNS:
         cases += [gen_case(ctx.rng, fn, big) for _ in range(per_fn)]
+    # round-2 families: magnitudes, option corners / sweeps, rare histories, fresh large labels, containers, medium sizes
+    hard = hardening_cases(ctx.rng, ctx.budget(8, 60), big)
+    for c in hard:
+        ctx.count("family", c["_family"].split("-")[0] + ":" + c["fn"].replace("_edges", ""))
+    cases += hard
 
     results = []
     n_viol = 0
@@ -1084,6 +1769,33 @@ def run(ctx: Ctx):
         results.append((case, outs, bool(viol)))
 
     large_witnesses(ctx)
+
+    # ---- class S (large, by construction) : each item in its own child
+    for name, args in big_plan(ctx.rng, big):
+        r = _in_child(run_big, name, args, timeout=180.0)
+        ctx.evaluations += 3
+        ctx.count("big", name)
+        if r[0] != "ok":
+            ctx.violation(f"structured large instance {name}{tuple(args)}: the run {r[0]}: {r[1:]}", {"big": name, "args": args})
+        elif r[1]:
+            ctx.violation(f"structured large instance {name}{tuple(args)} (answer known by construction): {r[1][0]}", {"big": name, "args": args, "all": r[1][:6]})
+
+    # ---- class A: one shared input object through consecutive calls (different functions / options / back-ends, random order)
+    seqs = [gen_sequence(ctx.rng) for _ in range(ctx.budget(160, 1500))]
+    n_bad = 0
+    for q, recs in zip(seqs, run_sequences(seqs)):
+        ctx.evaluations += 2 * len(q["steps"])
+        ctx.count("seq_steps", len(q["steps"]))
+        msg = judge_sequence(q, recs)
+        if msg:
+            n_bad += 1
+            if n_bad > 4:
+                continue
+            small = shrink_sequence(q) if n_bad <= 2 else q
+            r1 = _in_child(run_sequence, small, timeout=15.0)
+            ctx.violation(judge_sequence(small, r1[1]) if r1[0] == "ok" and judge_sequence(small, r1[1]) else msg, {"seq": small, "original": q})
+        elif len(q["steps"]) >= 3:
+            ctx.nontriv(json.dumps(q, sort_keys=True, default=str))
 
     # ---- correspondence, kernel-checked, one lemma family per function: (python model ~ backend='python') && (rust model ~ backend='rust')
     disagree = []
@@ -1135,6 +1847,20 @@ def run(ctx: Ctx):
 
 
 def replay(obj):
+    if obj.get("seq"):
+        setup()
+        q = dict(obj["seq"], edges=[tuple(e) for e in obj["seq"]["edges"]])
+        r = _in_child(run_sequence, q, timeout=30.0)
+        msg = judge_sequence(q, r[1]) if r[0] == "ok" else str(r)
+        for st, rec in zip(q["steps"], r[1] if r[0] == "ok" else []):
+            print(step_str(q, st), "->", rec["shared"], "| modified:", rec["modified"])
+        print("VIOLATES: " + msg if msg else "oracle verdict: ok")
+        return 1 if msg else 0
+    if obj.get("big"):
+        setup()
+        r = _in_child(run_big, obj["big"], obj["args"], timeout=300.0)
+        print(obj["big"], obj["args"], "->", r)
+        return 1 if (r[0] != "ok" or r[1]) else 0
     case = obj.get("case")
     if case is None:
         print("replay names an unchecked obligation:", obj.get("unchecked") or obj.get("what"))
